@@ -124,6 +124,10 @@ fn probe(a: &[String]) {
         Err(e) => println!("REJECTED {:?}", e),
       }
     }
+    "derivable" => {
+      let t = arg(1);
+      println!("derivable: {} ; parser accepts: {:?}", c03::derivable(&t), vcore::calls::parses(&t));
+    }
     "json" => println!("{}", vcore::calls::validate_json(&arg(1), &arg(2)).brief()),
     "cbor" => {
       let h = arg(2);
